@@ -1,7 +1,7 @@
 """C07 -- conditionals (TexCond.tla) and \\expandafter / \\noexpand (TexExpand.tla)."""
 import json
 from vlib import *
-from texvm import texvm_part, texvm_selftest, texvm_consistency, texvm_suite
+from texvm import texvm_part, texvm_selftest, texvm_consistency, texvm_suite, C07_CFG, C07_DEVS
 
 LEVEL = "model_checking"
 EXP_DEVS = {"noexpand-lost-under-expandafter": "Trace_TexExpand_dev.cfg"}
@@ -83,8 +83,8 @@ def run(ctx):
     ]
     # ---- the composed model: whole programs over the full primitive set (TexVM.tla) ------------
     texvm_consistency(ctx, "cond")
-    texvm_suite(ctx)
-    texvm_part(ctx, 6000 if ctx.quick else 80000, 707)
+    texvm_suite(ctx, cfg=C07_CFG, devs=C07_DEVS)
+    texvm_part(ctx, 6000 if ctx.quick else 80000, 707, cfg=C07_CFG, devs=C07_DEVS)
 
 
 def selftest(ctx):
